@@ -94,7 +94,8 @@ json observe(S &s) {
                     if (x.unit(q) != cols[q].unit) o["issues"].push_back("data-frame dimension unit(col) differs from the column unit");
                     if (x.columnDataType(q) != cols[q].dtype) o["issues"].push_back("data-frame dimension columnDataType(col) differs");
                 }
-                if (ci) { if (x.label() != cols[*ci].name || x.unit() != cols[*ci].unit || x.columnDataType() != cols[*ci].dtype) o["issues"].push_back("data-frame dimension default column attributes differ"); }
+                if (ci && *ci >= cols.size()) { /* BoundaryColumn (index == number of columns): no column attributes to compare */ }
+                else if (ci) { if (x.label() != cols[*ci].name || x.unit() != cols[*ci].unit || x.columnDataType() != cols[*ci].dtype) o["issues"].push_back("data-frame dimension default column attributes differ"); }
                 else if (x.label() != s.df.name()) o["issues"].push_back("data-frame dimension without column: label is not the frame's name");
             } catch (const std::exception &e) { o["issues"].push_back(std::string("data-frame dimension getter threw: ") + e.what()); }
             break; }
@@ -214,7 +215,17 @@ json handle(Ctx &c, const json &rec) {
     json result = ok();
     for (size_t i = 0; i < all.size(); i++) {
         bool last = i + 1 == all.size();
+        // C08 speaks about every call the LIBRARY rejects, whatever the specification expected: the state before the judged
+        // call is observed as well, and a rejected call must leave exactly that state
+        json before; if (last) before = observe(s);
         std::string r = doStep(s, all[i], (long) i);
+        if (last && r == "reject") {
+            json after = observe(s);
+            std::string d0 = firstDiff(before, after);
+            if (d0.empty()) { s.reopen(true); after = observe(s); d0 = firstDiff(before, after); if (!d0.empty()) d0 = "after reopen: " + d0; }
+            if (!d0.empty()) { result = mismatch("rejected call left a trace:" + all[i]["a"].get<std::string>() + ":" + d0, before, after); result["c08"] = true; break; }
+        }
+        if (last && c.opts.value("c08_only", false) && r == all[i]["res"].get<std::string>()) break;      // accepted as predicted: not C08's business
         if (r != all[i]["res"].get<std::string>()) {
             if (!last) { result = json{{"v", "unjudgeable"}, {"what", "prefix step outcome differs"}, {"step", all[i]}, {"observed", r}}; break; }
             result = mismatch("outcome:" + all[i]["a"].get<std::string>(), all[i]["res"], r);
